@@ -83,6 +83,9 @@ var sharedImportPrograms = []string{
 	"import state\nfor i := 0; i < 150; i++ {\nstate.bump(gid)\n}\n[state.count, len(state.log), state.log[0] == gid, state.log[149] == gid, state.bump(gid)]",
 	"from state import bump, peek\nfor i := 0; i < 150; i++ {\nbump(gid)\n}\n[peek()[0], len(peek()[1]), peek()[1][0] == gid, peek()[1][149] == gid]",
 	"import state as s1\nimport lib\ns1.bump(gid)\ns1.bump(lib.twice(gid))\n[s1.count, s1.log, lib.base]",
+	// a module that does not compile and one whose body raises: the failure is the importing evaluation's alone,
+	// the importer keeps serving everybody (and this evaluation) afterwards
+	"func f() {\nimport broken\nreturn 1\n}\nfunc g() {\nimport boom\nreturn 2\n}\nr1 := try(f, func(e) { return \"refused\" })\nr2 := try(g, func(e) { return \"raised\" })\nimport lib\nimport state\nstate.bump(gid)\n[r1, r2, lib.twice(gid), state.count]",
 	// clones of one VM (spawned goroutines) that import modules the spawner has and has not loaded yet
 	"import lib\nts := []\nfor i := 0; i < 4; i++ {\nts.append(spawn(func(k) {\nimport state\nimport lib\nstate.bump(k)\nreturn [lib.twice(k), state.count > 0]\n}, i))\n}\nrs := []\nfor _, t := range ts {\nrs.append(t.wait())\n}\nrs",
 }
@@ -108,6 +111,8 @@ func concWorker(req N) (resp N) {
 	os.MkdirAll(dir, 0o755)
 	os.WriteFile(filepath.Join(dir, "lib.risor"), []byte("base := 100\nfunc twice(n) { return n * 2 }\n"), 0o644)
 	os.WriteFile(filepath.Join(dir, "state.risor"), []byte("count := 0\nlog := []\nfunc bump(tag) {\ncount += 1\nlog.append(tag)\nreturn count\n}\nfunc peek() { return [count, log] }\n"), 0o644)
+	os.WriteFile(filepath.Join(dir, "broken.risor"), []byte("x := 1\ny := := 2\n"), 0o644)
+	os.WriteFile(filepath.Join(dir, "boom.risor"), []byte("x := 1\nerror(\"boom\")\n"), 0o644)
 	gnames := risor.NewConfig(risor.WithGlobal("gid", 0)).GlobalNames()
 	sharedImporters := []importer.Importer{
 		importer.NewLocalImporter(importer.LocalImporterOptions{GlobalNames: gnames, SourceDir: dir}),
